@@ -26,7 +26,7 @@ def tol_for(records, n):
 class C01(Scenario):
     prop = "C01"
     level = "exploration"
-    profiles = ["reduce"]
+    profiles = ["reduce", "reduce", "reduce", "reduce-awkward"]
     budgets = {"quick": 16000, "thorough": 300000}
     wall_caps = {"quick": 110, "thorough": 1500}
     rule = ("one run = one aggregation job: seeded tree (19 primitives, dyadic regime), weighted records from the "
@@ -34,16 +34,18 @@ class C01(Scenario):
             "arrival order, pair choice and operand order at every reduce step. Non-trivial: >= 2 executors filled "
             "data and >= 1 merge joined two non-empty partials. Distinct: hash of (tree shape, schedule shape).")
     assumptions = ["reference model (hgsim/model.py) is the specification", "dyadic configurations only: exact "
-                   "fields compared with ==, mean/variance within 1024*eps*n*(1+max|q|)^2",
+                   "fields compared with ==, mean/variance within 1024*eps*n*(1+max|q|)^2; profile reduce-awkward (0.1, 1/3, 1e6 offsets) "
+                   "checks partition invariance, identity, commutativity and associativity without the model, sums within tolerance",
                    "operands are never touched after a merge (statement-minimal)"]
     expected_faults = ["retry", "reorder", "regroup", "empty_partial"]
     expected_probes = ["disjoint_sparse_merge", "empty_side_merge", "nan_extreme_merge"]
 
     def generate(self, rng, tier, profile):
         big = tier == "thorough"
-        opts = specmod.merge_opts(depth=5 if big else 4, max_nodes=40 if big else 24)
+        regime = "awkward" if profile.endswith("awkward") else "dyadic"
+        opts = specmod.merge_opts(depth=5 if big else 4, max_nodes=40 if big else 24, regime=regime)
         sp = specmod.gen_spec(rng.fork("tree"), opts)
-        crit = specmod.critical_values(sp)
+        crit = specmod.critical_values(sp, regime)
         d = rng.fork("data")
         n = d.randint(0, 200 if big and d.chance(0.2) else 40)
         recs = [specmod.gen_record(d, crit) for _ in range(n)]
@@ -138,10 +140,12 @@ class C01(Scenario):
             steps.append({"op": "ident", "obj": pending[0], "side": s.pick(["l", "r"]), "actor": "R", "t": sch.now})
         if pending:
             steps.append({"op": "final", "obj": pending[0], "actor": "D", "t": sch.now})
-        return {"spec": sp, "records": [specmod.enc_record(r) for r in recs], "steps": steps}
+        return {"spec": sp, "records": [specmod.enc_record(r) for r in recs], "steps": steps, "regime": regime}
 
     # ------------------------------------------------------------------
     def _expect(self, w, doc, cover, what, step, nmerge):
+        if w.case.get("regime", "dyadic") != "dyadic":
+            return  # non-dyadic edges: the exact model is not consulted; partition invariance below still is
         recs = [w.records[i] for i, _ in cover]
         m = model.model_doc(w.specs[0], [(w.records[i], wt) for i, wt in cover])
         d = observe.doc_diff(doc, m, tol_for(recs, len(cover) + nmerge))
@@ -152,7 +156,9 @@ class C01(Scenario):
 
     def _same(self, w, a, b, what, step, n, label):
         recs = w.records
-        d = observe.doc_diff(a, b, tol_for(recs, n))
+        tol = tol_for(recs, n)
+        tol.sums = w.case.get("regime", "dyadic") != "dyadic"
+        d = observe.doc_diff(a, b, tol)
         if d is not None:
             raise self.violation(d[1], what, "%s:%s" % (label, d[2]),
                                  "%s: %s differs at %s (%s.%s)" % (what, label, d[0], d[1], d[2]), step,
